@@ -16,6 +16,7 @@ import (
 	"io"
 	"os"
 	"os/exec"
+	"path/filepath"
 	"strings"
 	"time"
 
@@ -149,7 +150,7 @@ func runCase(in input, emit func(string)) (res childResult) {
 		res.Tags = append(res.Tags, "monitor-select-two-arms")
 	}
 	if w.diverged > 0 {
-		res.Tags = append(res.Tags, "replay-diverged")
+		res.Tags = append(res.Tags, "replay-diverged", "diverged-at: "+w.divergedAt)
 	}
 	rejected := w.counts["recv-update"] - w.counts["store"]
 	res.Nontrivial = res.Res == 0 && ((w.counts["store"] >= 1 && rejected >= 1) ||
@@ -376,13 +377,39 @@ func main() {
 	// --focus Cxx is consumed here; everything else goes to the shared driver
 	var rest []string
 	args := os.Args[1:]
+	shrinkFile, shrinkProp, theories := "", "", "coq/theories"
 	for i := 0; i < len(args); i++ {
-		if args[i] == "--focus" && i+1 < len(args) {
-			focus = args[i+1]
-			i++
-			continue
+		if i+1 < len(args) {
+			switch args[i] {
+			case "--focus":
+				focus = args[i+1]
+				i++
+				continue
+			case "--shrink":
+				shrinkFile = args[i+1]
+				i++
+				continue
+			case "--prop":
+				shrinkProp = args[i+1]
+				i++
+				continue
+			case "--theories":
+				theories = args[i+1]
+				i++
+				continue
+			}
 		}
 		rest = append(rest, args[i])
+	}
+	if shrinkFile != "" {
+		if shrinkProp == "" {
+			shrinkProp = focus
+		}
+		if abs, err := filepath.Abs(theories); err == nil {
+			theories = abs
+		}
+		shrinkMain(shrinkFile, shrinkProp, theories)
+		return
 	}
 	os.Args = append([]string{os.Args[0]}, rest...)
 	driver.Main(driver.Engine{
